@@ -11,6 +11,7 @@ function definitions at the start/middle/end, require() calls in every syntactic
  * a require() whose file is missing or whose arguments are malformed must fail the build.
 """
 import os
+from .. import ambient
 import shutil
 import tempfile
 
@@ -304,7 +305,7 @@ def build_graph(rng, root):
         os.makedirs(os.path.dirname(path), exist_ok=True)
         with open(path, 'wb') as fh:
             fh.write(data)
-    argv = ['-q', 'build', os.path.join(root, 'out.p8'), '--lua', os.path.join(root, 'main.lua')]
+    argv = [ambient.vflag(), 'build', os.path.join(root, 'out.p8'), '--lua', os.path.join(root, 'main.lua')]
     env = {}
     if lua_path_mode == 'arg_rel':
         argv += ['--lua-path', '?;?.lua;libs/?.lua']
@@ -499,7 +500,7 @@ def run_error(ctx, rng, root, index=0):
     ctx.case((kind, files['main.lua']), nontrivial=True)
     ctx.feature('error:' + kind)
     try:
-        rcode = tool.main(['-q', 'build', out, '--lua', os.path.join(root, 'main.lua')])
+        rcode = tool.main([ambient.vflag(), 'build', out, '--lua', os.path.join(root, 'main.lua')])
         err = None
     except BaseException as e:
         rcode, err = 1, e
@@ -550,7 +551,7 @@ def replay(case, ctx):
         ctx.case(repr(sorted(case['files'])))
         if 'error_kind' in case:
             try:
-                rcode = tool.main(['-q', 'build', os.path.join(root, 'eout.p8'), '--lua', os.path.join(root, 'main.lua')])
+                rcode = tool.main([ambient.vflag(), 'build', os.path.join(root, 'eout.p8'), '--lua', os.path.join(root, 'main.lua')])
             except BaseException:
                 rcode = 1
             if not rcode:
